@@ -351,3 +351,46 @@ pub fn tile_seq_space(depth: u32) -> ByteSpace {
         }
     })
 }
+
+/// Long datagrams: `n` well-formed tiles of varying sizes (4, 8, 12, 12-with-padding, 8 bytes, cycling with a stride
+/// that depends on `n`), for n around the sizes an implementation might pick for a cache or an up-front check
+/// (8, 16, 32, 64 ...), ending in each of 12 tail variants: exact, the last tile's length field one word too large
+/// or too small, 1..3 stray bytes, a header claiming more than is left, a tile that fails to parse (typed parser /
+/// version / below its minimum), a 4-byte tile, a padded tile.
+pub const CHAIN_COUNTS: [usize; 14] = [7, 8, 9, 15, 16, 17, 18, 31, 32, 33, 34, 63, 65, 130];
+pub const CHAIN_TAILS: u64 = 12;
+pub fn long_chain_space() -> ByteSpace {
+    let menu = tile_menu();
+    let good: Vec<Vec<u8>> = vec![menu[0].clone(), menu[1].clone(), menu[2].clone(), menu[8].clone(), menu[3].clone()];
+    ByteSpace::new("long-tile-chains", CHAIN_COUNTS.len() as u64 * CHAIN_TAILS * 2, move |idx, out| {
+        out.clear();
+        let n = CHAIN_COUNTS[(idx % CHAIN_COUNTS.len() as u64) as usize];
+        let tail = (idx / CHAIN_COUNTS.len() as u64) % CHAIN_TAILS;
+        let stride = if idx / (CHAIN_COUNTS.len() as u64 * CHAIN_TAILS) == 0 { 1 } else { 3 };
+        let mut last = 0usize;
+        for i in 0..n {
+            last = out.len();
+            out.extend_from_slice(&good[(i * stride + i / 16) % good.len()]);
+        }
+        match tail {
+            0 => {}
+            1 | 2 => {
+                let f = crate::refmodel::read::rd16(out, last + 2);
+                let f = if tail == 1 { f.wrapping_add(1) } else { f.wrapping_sub(1) };
+                out[last + 2] = (f >> 8) as u8;
+                out[last + 3] = f as u8;
+            }
+            3 | 4 | 5 => {
+                for k in 0..(tail - 2) {
+                    out.push(0x80 | k as u8);
+                }
+            }
+            6 => out.extend_from_slice(&[0x80, 203, 0, 9, 1, 2, 3, 4]),
+            7 => out.extend_from_slice(&menu[4]),
+            8 => out.extend_from_slice(&menu[5]),
+            9 => out.extend_from_slice(&menu[10]),
+            10 => out.extend_from_slice(&menu[0]),
+            _ => out.extend_from_slice(&menu[8]),
+        }
+    })
+}
